@@ -342,7 +342,7 @@ pub fn s_faults(p: &mut Pool) {
 
 /// C06 (glue level): payload and snapshot bytes are bound as BLOBs, stored in BLOB cells and read
 /// back byte for byte (symbolic bytes: 0x00, 0xFF, ASCII digits, invalid UTF-8 are all in range).
-pub fn s_blob(p: &mut Pool) {
+pub fn s_blob<const WHICH: u8>(p: &mut Pool) {
     let s = any_state(p, 0);
     install(&s);
     assume(s.c.exists);
@@ -350,25 +350,28 @@ pub fn s_blob(p: &mut Pool) {
     let a = p.u128();
     let b = p.u128();
     let data = bytes_from_pool(p);
-    let sdata = bytes_from_pool(p);
     let mut t = concrete(st.txn(u(s.cid)).unwrap());
-    chk!(t.add_version(u(a), u(b), data.to_vec()).is_ok(), "s06: add_version");
-    chk!(t.set_snapshot(Snapshot { version_id: u(a), timestamp: chrono::DateTime::from_timestamp(TS[1], 0).unwrap(), versions_since: 0 }, sdata.to_vec()).is_ok(), "s06: set_snapshot");
-    let db = *rusqlite::db();
-    chk!(matches!(db.t[1].rows[0][3], Val::Blob(_)), "s06: the payload is stored as a BLOB cell (not text, which affinity could alter)");
-    match t.get_version_by_parent(u(b)) {
-        Ok(Some(v)) => {
-            chk!(data.eq_slice(&v.history_segment) && v.version_id.as_u128() == a && v.parent_version_id.as_u128() == b, "s06: the version comes back byte for byte with its ids");
-            std::mem::forget(v);
+    // (split by operation pair: all four glue calls in one harness did not finish in 25 min)
+    if WHICH == 0 {
+        chk!(t.add_version(u(a), u(b), data.to_vec()).is_ok(), "s06: add_version");
+        let db = *rusqlite::db();
+        chk!(matches!(db.t[1].rows[0][3], Val::Blob(_)), "s06: the payload is stored as a BLOB cell (not text, which affinity could alter)");
+        match t.get_version_by_parent(u(b)) {
+            Ok(Some(v)) => {
+                chk!(data.eq_slice(&v.history_segment) && v.version_id.as_u128() == a && v.parent_version_id.as_u128() == b, "s06: the version comes back byte for byte with its ids");
+                std::mem::forget(v);
+            }
+            _ => chk!(false, "s06: the version is found by its parent"),
         }
-        _ => chk!(false, "s06: the version is found by its parent"),
-    }
-    match t.get_snapshot_data(u(a)) {
-        Ok(Some(d)) => {
-            chk!(sdata.eq_slice(&d), "s06: the snapshot comes back byte for byte");
-            std::mem::forget(d);
+    } else {
+        chk!(t.set_snapshot(Snapshot { version_id: u(a), timestamp: chrono::DateTime::from_timestamp(TS[1], 0).unwrap(), versions_since: 0 }, data.to_vec()).is_ok(), "s06: set_snapshot");
+        match t.get_snapshot_data(u(a)) {
+            Ok(Some(d)) => {
+                chk!(data.eq_slice(&d), "s06: the snapshot comes back byte for byte");
+                std::mem::forget(d);
+            }
+            _ => chk!(false, "s06: the snapshot is found"),
         }
-        _ => chk!(false, "s06: the snapshot is found"),
     }
     usage_ok();
     cov!(data.len == 2 && data.b[0] == b'1' && data.b[1] == b'2', "s06.cov: payload that looks numeric");
